@@ -199,6 +199,16 @@ def build_unit(u, wdir, extra_defs=()):
         gi_log = out + err
         if rc is None:
             raise ToolError('goto-instrument timeout for %s' % u['name'])
+        if rc != 0 and u.get('restrict_fp') and 'not found in the symbol table' in gi_log:
+            # the code no longer has an indirect call site that a pin names (a call was removed or added): the pins
+            # are only a speed-up -- drop them all and let CBMC resolve the function pointers by type and value
+            gi = [x for i, x in enumerate(gi) if x != '--restrict-function-pointer' and (i == 0 or gi[i - 1] != '--restrict-function-pointer')]
+            rc, out, err, dt = run(gi + [gb, gb2], u.get('gi_timeout', 300)) if len(gi) > 1 else (0, '', '', 0)
+            if len(gi) == 1:
+                gb2 = gb
+            gi_log = 'NOTE: function-pointer pins dropped (call sites changed)\n' + out + err
+            if rc is None:
+                raise ToolError('goto-instrument timeout for %s' % u['name'])
         if rc != 0:
             raise ToolError('goto-instrument failed for %s:\n%s' % (u['name'], gi_log[-3000:]))
     return gb2, rep, ' '.join(gi) if need_gi else '', gi_log
